@@ -1,5 +1,6 @@
 import KcpVerif.Model.Kcp
 import KcpVerif.Lemmas.KcpFlush
+import KcpVerif.Lemmas.KcpLive
 /-! C02 — eventual delivery: a healed network always drains the backlog. -/
 namespace KcpVerif.Props
 open KcpVerif KcpVerif.Gen KcpVerif.Kcp
@@ -142,5 +143,143 @@ theorem C02_retx_armed_sent_timer (k : Kcp) (now : U32) (s : Seg) (hs : s ∈ (f
   · rw [(C02_retx_armed k now).2.1]; exact List.mem_map.mpr ⟨s, hs, rfl⟩
   · rw [segAfter_sent _ _ _ _ _ _ _ _ ha hc]; exact retimed_resendts _ _ _ _ _ hc
 
-end KcpVerif.Props
+/-! ### `ack_owed_sent`
 
+`inStep` (Lemmas/KcpInput.lean) is the body of one iteration of `inputLoop` for a segment that passed
+the header checks (`inputLoop_succ` proves the unrolling by `rfl`). -/
+
+/-- Every PUSH whose `sn` is below the top of the receive window — new, duplicate, or already
+delivered (`sn < rcv_nxt`) — is put on the ack list, whatever else the step does; a PUSH at or
+above the top is not (and leaves the whole receive side alone); no later step of the same `Input`
+removes an entry. -/
+theorem C02_ack_owed_listed (regular : Bool) (conv : U32) (cmd frg : BitVec 8) (wnd : BitVec 16) (ts sn una : U32)
+    (payload : Bytes) (st : InLoop) (hc : cmd.toNat = IKCP_CMD_PUSH) :
+    (itimediff sn (st.k.rcv_nxt + st.k.rcv_wnd) < 0 →
+      (inStep regular conv cmd frg wnd ts sn una payload st).k.acklist = st.k.acklist ++ [⟨sn, ts⟩]) ∧
+    (¬ itimediff sn (st.k.rcv_nxt + st.k.rcv_wnd) < 0 →
+      (inStep regular conv cmd frg wnd ts sn una payload st).k.acklist = st.k.acklist) ∧
+    (∀ fuel data, ∃ t, (inputLoop regular fuel data st).k.acklist = st.k.acklist ++ t) := by
+  refine ⟨inStep_push_acklist regular conv cmd frg wnd ts sn una payload st hc, fun hw => ?_,
+    fun fuel data => inputLoop_acklist_mono regular fuel data st⟩
+  rw [inStep_push_refused regular conv cmd frg wnd ts sn una payload st hc hw]
+  exact (inPre_rcv regular wnd una st.k).2.2.1
+
+/-- A flush of either type with a non-empty ack list empties it and — the jitter filter always
+keeps the LAST entry (`total − 1 = i`) — writes at least the ACK header of the last entry, carrying
+`una = rcv_nxt` and the current `wnd_unused`; unless the flush panics (buffer too small, C05/C10)
+that header is in the output. -/
+theorem C02_ack_owed_sent (k : Kcp) (full : Bool) (now : U32) (a : Ack) (hl : k.acklist.getLast? = some a) :
+    (flush k full now).k.acklist = [] ∧
+    ((flush k full now).panic = false → ∃ pre post, (flush k full now).outs.flatten =
+      pre ++ encodeHdr k.conv (BitVec.ofNat 8 IKCP_CMD_ACK) 0 (wndUnused k) a.ts a.sn k.rcv_nxt 0 ++ post) := by
+  constructor
+  · obtain ⟨_, _, _, _, _, _, h⟩ := flush_frame k full now
+    rw [h]
+  · intro hp
+    rw [flush_panic] at hp
+    have hg := grow_ack_end k full now
+    have hl' := ackFlush_last (wndUnused k) k.rcv_nxt k.acklist.length k.acklist 0
+      ⟨{ k := k }, { cmd := BitVec.ofNat 8 IKCP_CMD_ACK }⟩ a hl (by omega) (hg.noPanic hp)
+    obtain ⟨pre, hw⟩ := hl'.1
+    obtain ⟨post, hpost⟩ := hg.keeps hw
+    exact ⟨pre, post, by rw [flush_wire, hpost]⟩
+
+/-- the ack list is always flushed, even with an empty list nothing remains -/
+theorem C02_flush_empties_acklist (k : Kcp) (full : Bool) (now : U32) : (flush k full now).k.acklist = [] := by
+  obtain ⟨_, _, _, _, _, _, h⟩ := flush_frame k full now
+  rw [h]
+
+/-- `Input` itself flushes as soon as the ack list reaches `mtu / 24` entries (and at once with
+`ackNoDelay`): after every `Input` that parsed its datagram to the end (`ret = 0`, no panic) the
+list is empty or shorter than `mtu / 24`. -/
+theorem C02_ack_owed_input_flushes (k : Kcp) (data : Bytes) (regular ackNoDelay : Bool) (now : U32)
+    (hr : (input k data regular ackNoDelay now).ret = 0) (hp : (input k data regular ackNoDelay now).panic = false) :
+    (input k data regular ackNoDelay now).k.acklist = [] ∨
+    ((input k data regular ackNoDelay now).k.acklist.length <
+        ((input k data regular ackNoDelay now).k.mtu / u32 IKCP_OVERHEAD).toNat ∧
+      (ackNoDelay = true → False)) := by
+  rw [input_eq] at hr hp ⊢
+  by_cases h1 : data.length < IKCP_OVERHEAD
+  · rw [if_pos h1] at hr; simp at hr
+  · rw [if_neg h1] at hr hp ⊢
+    by_cases h2 : (inSt k data regular).panic = true
+    · rw [if_pos h2] at hp; simp at hp
+    · rw [if_neg h2] at hr hp ⊢
+      by_cases h3 : (inSt k data regular).ret < 0
+      · rw [if_pos h3] at hr; simp only [] at hr; omega
+      · rw [if_neg h3]
+        by_cases h4 : (inSt k data regular).flushSeg = true
+        · rw [if_pos h4]; exact Or.inl (C02_flush_empties_acklist _ _ _)
+        · rw [if_neg h4]
+          by_cases h5 : (inK2 k data regular now).acklist.length ≥ ((inK2 k data regular now).mtu / u32 IKCP_OVERHEAD).toNat
+          · rw [if_pos h5]; exact Or.inl (C02_flush_empties_acklist _ _ _)
+          · rw [if_neg h5]
+            by_cases h6 : ackNoDelay = true ∧ (inK2 k data regular now).acklist.length > 0
+            · rw [if_pos h6]; exact Or.inl (C02_flush_empties_acklist _ _ _)
+            · rw [if_neg h6]
+              by_cases hl : (inK2 k data regular now).acklist = []
+              · exact Or.inl hl
+              · exact Or.inr ⟨Nat.lt_of_not_le h5, fun hnd => h6 ⟨hnd, List.length_pos_iff.mpr hl⟩⟩
+
+/-! ### `una_cumulative` -/
+
+/-- `parse_una(u)` + `shrink_buf`: exactly the leading segments with `itimediff u sn > 0` are
+removed, the new head (if any) is not covered by `u`, and `snd_una` becomes the head's `sn` or
+`snd_nxt`.  Every valid incoming segment of ANY command does this first (`inPre` is the common
+prologue of `inStep`), so a lost final ACK is repaired by the `una` of any later segment. -/
+theorem C02_una_cumulative (k : Kcp) (u : U32) :
+    (shrinkBuf (parseUna k u).1).snd_buf = k.snd_buf.dropWhile (fun s => decide (itimediff u s.sn > 0)) ∧
+    (match (shrinkBuf (parseUna k u).1).snd_buf with
+      | s :: _ => (shrinkBuf (parseUna k u).1).snd_una = s.sn ∧ ¬ itimediff u s.sn > 0
+      | [] => (shrinkBuf (parseUna k u).1).snd_una = k.snd_nxt) ∧
+    (∀ regular wnd, (inPre regular wnd u k).snd_buf = k.snd_buf.dropWhile (fun s => decide (itimediff u s.sn > 0))) := by
+  have hb : (shrinkBuf (parseUna k u).1).snd_buf = k.snd_buf.dropWhile (fun s => decide (itimediff u s.sn > 0)) := by
+    rw [shrinkBuf_eq]; unfold parseUna; simp only []; exact drop_unaCount u k.snd_buf
+  refine ⟨hb, ?_, ?_⟩
+  · rw [shrinkBuf_eq]
+    unfold parseUna
+    simp only [drop_unaCount]
+    cases hd : k.snd_buf.dropWhile (fun s => decide (itimediff u s.sn > 0)) with
+    | nil => rfl
+    | cons s rest =>
+      refine ⟨rfl, ?_⟩
+      have := List.head?_dropWhile_not (fun s : Seg => decide (itimediff u s.sn > 0)) k.snd_buf
+      rw [hd] at this
+      simpa using this
+  · intro regular wnd
+    unfold inPre
+    rw [shrinkBuf_eq]; unfold parseUna; simp only [drop_unaCount]
+    cases regular <;> rfl
+
+/-! ### `heap_top_advances` -/
+
+/-- The move loop runs to a fixpoint: afterwards the head of `rcv_buf`, if it is the next expected
+segment, is blocked only by a full delivery queue.  `MoveFix` (Lemmas/KcpLive.lean) is that
+statement about a connection; it is established by `moveReady`, hence by every successful `Recv`
+and by every `parse_data` that stores or sees a duplicate, and kept by the remaining branches. -/
+theorem C02_heap_top_advances (wnd : Nat) (buf q : List Seg) (nxt : U32) (k : Kcp) (s : Seg) (buflen : Nat) :
+    (∀ h rest, (moveLoop wnd buf q nxt).buf = h :: rest → h.sn = (moveLoop wnd buf q nxt).nxt →
+        (moveLoop wnd buf q nxt).q.length ≥ wnd) ∧
+    MoveFix (moveReady k) ∧
+    (MoveFix k → MoveFix (parseData k s).k) ∧
+    ((parseData k s).rep = false → (parseData k s).panic = false → MoveFix (parseData k s).k) ∧
+    (MoveFix k → MoveFix (recv k buflen).k) ∧
+    ((recv k buflen).n ≥ 0 → MoveFix (recv k buflen).k) := by
+  refine ⟨moveLoop_fix wnd buf q nxt, moveReady_fix k, parseData_fix k s, ?_, recv_fix k buflen, recv_ok_fix k buflen⟩
+  intro hr hp
+  unfold parseData at hr hp ⊢
+  split
+  · rename_i h; rw [if_pos h] at hr; simp at hr
+  · rename_i h1; rw [if_neg h1] at hr hp
+    split
+    · exact moveReady_fix _
+    · rename_i h2; rw [if_neg h2] at hr hp
+      split
+      · rename_i h; rw [if_pos h] at hp; simp at hp
+      · exact moveReady_fix _
+
+/-- non-vacuity: a blocked head (queue full) and a moved head -/
+example : (moveLoop 1 [{ sn := 5 }, { sn := 6 }] [] 5).buf = [{ sn := 6 }] ∧
+    (moveLoop 1 [{ sn := 5 }, { sn := 6 }] [] 5).nxt = 6 := by decide
+
+end KcpVerif.Props
